@@ -76,6 +76,10 @@ func classify(v vs.Violation) ([]string, string) {
 	switch v.Kind {
 	case "deadlock":
 		if strings.Contains(v.Msg, "[caller-") {
+			if keyedScenario {
+				// with metadata keys a stuck caller is also "not refused with a permanent error"
+				return []string{"C06", "C11", "C10"}, "deadlock: " + v.Msg
+			}
 			return []string{"C06", "C11"}, "deadlock: " + v.Msg
 		}
 		return []string{"C11"}, "deadlock: " + v.Msg
@@ -148,8 +152,11 @@ func countProp(vs []WViolation) int {
 	return n
 }
 
+var keyedScenario bool
+
 func runOne(sc *Scenario, bound int, start time.Time, budget time.Duration, noprune bool) *WorkerResult {
 	res := &WorkerResult{Scenario: sc.Name, Bound: bound}
+	keyedScenario = len(sc.Keys) > 0 && sc.Limit > 0
 	var last *vs.Explorer
 	seen := map[string]bool{}
 	for b := 0; b <= bound; b++ {
